@@ -410,26 +410,52 @@ def r3_id_plumbing(ctx):
     # (c) invalidate
     inv = ctx.need('C11.R3', 'Session::invalidate', ctx.fb.body(CR, M + 'Session::invalidate'))
     if inv is not None:
+        from ..inline import inlined as _inl
+        inv = _inl(ctx.fb, inv, crate=CR, keep={M + 'InvalidationFlag::invalidate'})     # "mark for deletion" may be a helper shared with delete()
         defs = Defs(inv)
         flag = [bb for bb, t in inv.calls() if callee(t) == M + 'InvalidationFlag::invalidate']
         dirty = _dirty_write_blocks(inv, defs, SS)
         marked = [bb for bb, v in dirty.items() if v == ['MarkedForDeletion']]
         rets = inv.return_blocks()
-        ok = bool(flag) and bool(marked) and all(inv.dominates(flag[0], r) and inv.dominates(marked[0], r) for r in rets)
+        rs = set(rets)
+        ok = bool(flag) and bool(marked) and not (inv.reachable_from_entry(avoid=flag) & rs) and not (inv.reachable_from_entry(avoid=marked) & rs)
         ctx.ob('C11.R3', 'invalidate|flag+marked', ok, inv.loc(),
                'invalidate() sets the invalidation flag (blocks %s) and writes MarkedForDeletion (blocks %s) on every path' % (flag, marked))
     # (d) cycle_id
     cyc = ctx.need('C11.R3', 'Session::cycle_id', ctx.fb.body(CR, M + 'Session::cycle_id'))
     if cyc is not None:
         defs = Defs(cyc)
-        rnd = [bb for bb, t in cyc.calls() if callee(t) == 'pavex_session::id::SessionId::random']
-        cmp_ = [bb for bb, t in cyc.calls() if callee(t) in ('core::cmp::PartialEq::ne', 'core::cmp::PartialEq::eq')
-                and 'SessionId' in t['aty'][0]]
+        RANDOM = 'pavex_session::id::SessionId::random'
+        is_id_cmp = lambda t: callee(t) in ('core::cmp::PartialEq::ne', 'core::cmp::PartialEq::eq') and t['aty'] and 'SessionId' in t['aty'][0]
+        rnd = [bb for bb, t in cyc.calls() if callee(t) == RANDOM]
+        cmp_ = [bb for bb, t in cyc.calls() if is_id_cmp(t)]
+        # the same draw written with iterator adaptors: `repeat_with(SessionId::random)..find(|new| Some(*new) != old)`: random() is handed over as a
+        # function value and the comparison sits in the predicate of the `find`
+        fnvals = [bb for bb, t in cyc.calls() if any(isinstance(a_, dict) and a_.get('fn') == RANDOM for a_ in t['args'])]
+        finds = []
+        for bb, t in cyc.calls():
+            if (callee(t) or '').split('::')[-1] in ('find', 'find_map', 'skip_while', 'filter') and (callee(t) or '').startswith('core::iter::'):
+                for x in ctx.fb.bodies_of_item(CR, cyc.nroot):
+                    if x.id != cyc.id and any(is_id_cmp(t2) for _, t2 in x.calls()) and t['aty'] and any(('closure@' in a_) for a_ in t['aty']):
+                        finds.append(bb)
+                        break
         writes = [(bb, st) for bb, j, st in cyc.all_assigns() if st.get('lty') and strip_generics(st['lty']) == CID]
         ctx.need('C11.R3', 'assignment to Session.id in cycle_id', writes)
-        ctx.need('C11.R3', 'SessionId::random() in cycle_id', rnd)
+        ctx.need('C11.R3', 'SessionId::random() in cycle_id', rnd or fnvals)
+
+        def from_random(pl):
+            sl, _ = backward_slice(cyc, pl['l'], defs) if pl is not None else ([], set())
+            direct = RANDOM in {c for c, _, _ in slice_calls(sl)}
+            via = [n for _, _, n in sl if n.get('k') == 'call' and any(isinstance(a_, dict) and a_.get('fn') == RANDOM for a_ in n['args'])]
+            filtered = [n for _, _, n in sl if n.get('k') == 'call' and (callee(n) or '').split('::')[-1] in ('find', 'find_map', 'skip_while', 'filter')]
+            return direct, bool(via) and bool(filtered)
+
         for bb, st in writes:
             ok = bool(cmp_) and any(cyc.dominates(c, bb) for c in cmp_) and bool(rnd) and cyc.dominates(rnd[0], bb)
+            if not ok and fnvals and finds:
+                rv = st['rv']
+                pl = op_place(rv['op']) if rv['k'] == 'use' else None
+                ok = pl is not None and from_random(pl)[1] and all(cyc.dominates(f, bb) for f in finds[:1])
             ctx.ob('C11.R3', 'cycle_id|compared-before-use', ok, cyc.loc(bb, st),
                    'the new id is drawn from SessionId::random() and compared (==/!=) with the old id on every path to the write of Session.id')
         # aggregates: ToBeRenamed{old,new}: `new` from random(), `old` not from random()
@@ -438,9 +464,8 @@ def r3_id_plumbing(ctx):
             if rv['k'] == 'agg' and rv.get('ak') == 'adt' and strip_generics(rv['adt']) == CID and rv['var'] == 'ToBeRenamed':
                 srcs = {}
                 for fname, o in zip(rv['fields'], rv['ops']):
-                    pl = op_place(o)
-                    sl, _ = backward_slice(cyc, pl['l'], defs) if pl is not None else ([], set())
-                    srcs[fname] = 'pavex_session::id::SessionId::random' in {c for c, _, _ in slice_calls(sl)}
+                    d_, v_ = from_random(op_place(o))
+                    srcs[fname] = d_ or v_
                 ctx.ob('C11.R3', 'cycle_id|ToBeRenamed-fields', srcs.get('new') is True and srcs.get('old') is False, cyc.loc(bb, st),
                        'ToBeRenamed{old,new}: new derives from random(): %s; old derives from random(): %s' % (srcs.get('new'), srcs.get('old')))
 
